@@ -221,7 +221,14 @@ def model_times(ops):
     return out
 
 
+FAKE_CLOCK = [False]
+FAKE_BASE = datetime.datetime(1991, 1, 1, tzinfo=datetime.timezone.utc)
+
+
 def time_is(got, w):
+    if w is None and FAKE_CLOCK[0]:
+        # the forwarders are a subclass with a clock of their own (_now overridden): "the clock" is THAT one
+        return got is not None and 0 <= (got - FAKE_BASE).total_seconds() < 86400
     if w is None:       # the system clock: nothing that was ever supplied
         return got is not None and abs((got - BASE).total_seconds()) > 10 ** 6
     return got == BASE + datetime.timedelta(seconds=w)
@@ -257,8 +264,18 @@ def execute(workload, chooser, fault=None, line_yield=False):
     threads = []
 
     def main():
+        ticks = [0]
+
+        class OwnClock(testtools.ThreadsafeForwardingResult):
+            def _now(self):
+                explicit = testtools.TestResult._now(self)
+                if abs((explicit - BASE).total_seconds()) < 10 ** 6:
+                    return explicit          # a time() the test supplied still counts
+                ticks[0] += 1
+                return FAKE_BASE + datetime.timedelta(seconds=ticks[0])
+        cls = OwnClock if FAKE_CLOCK[0] else testtools.ThreadsafeForwardingResult
         for i, ops in enumerate(workload):
-            fwd = testtools.ThreadsafeForwardingResult(target, sem)
+            fwd = cls(target, sem)
             t = S.CtlThread(sch, target=worker, args=(fwd, ops, errors))
             threads.append(t)
             t.start()
@@ -447,6 +464,7 @@ def x_schedule(ctx, case):
         chooser = S.pct_chooser(random.Random(case["rseed"]), depth=case.get("depth", 2))
     else:
         chooser = S.replay_chooser(case.get("prefix", []))
+    FAKE_CLOCK[0] = bool(case.get("own_clock"))
     sch, log, sem, errors, exc, threads = execute(workload, chooser, fault, case.get("lines", False))
     detail = lambda: {"schedule": [k for n, k, c in sch.choices][:80], "fault": fault,  # noqa: E731
                       "trace-tail": sch.trace[-12:]}
@@ -580,6 +598,8 @@ def run(ctx):
                                                                                   "stop", "done"]), rng.randint(1, 3)]
         if not ctx.quick and rng.random() < 0.1:
             case["lines"] = True
+        if rng.random() < 0.15:
+            case["own_clock"] = True       # forwarders of a subclass that overrides the _now() hook
         ctx.execute("schedule", case)
     # ---- free-running stress ---------------------------------------------------------------------------
     for i in range(ctx.scale(20, 600)):
